@@ -10,6 +10,9 @@ def run(tier):
     c.add_tlc(r, "sections (origin x Pythagorean direction x coordinate system); exact mapping, probes off boundaries")
     # every harness process gets Cartesian and spherical sections, alternately starting with either kind
     # (state shared between worlds of different coordinate systems must not leak into the mapping)
+    r.behaviours = list(dict.fromkeys(r.behaviours))
+    if not any('"refusal"' in b[:200] for b in r.behaviours):
+        raise tlc.SetupError("the refusal behaviours were not emitted")
     cart = [b for b in r.behaviours if '"spherical"' not in b[:400] and '"refusal"' not in b[:200]]
     sph = [b for b in r.behaviours if '"spherical"' in b[:400]]
     other = [b for b in r.behaviours if b not in cart and b not in sph]
@@ -34,9 +37,12 @@ def run(tier):
     c.coverage["distinct_nontrivial"] = res.stats.get("queries", 0) // 2
     c.coverage["rule"] = ("sections: 3 (2) origins x 6 directions (axis-aligned, negative, 3-4-5, 5-12-13) in Cartesian (spherical) "
                           "renderings of the kitchen-sink world plus a half-space-cooling plate whose temperature varies continuously with "
-                          "position; per section 6 (5) positions x 3 depths x 45 property lists (all singles and pairs of T, C0, C5, G0x2, Tag, V "
+                          "position; per section 6 (5) positions x 4 depths x 45 property lists (all singles and pairs of T, C0, C5, G0x2, Tag, V "
                           "and three longer ones); each 2D reply is compared block by block with the 3D reply at the mapped point TLC computes "
-                          "exactly; velocity as the specified projection; refusal without a cross section. non-trivial = (2D,3D) query pairs")
+                          "exactly; velocity as the specified projection; the same pairs through 11 single-property entry points (World::temperature with and "
+                          "without gravity argument, composition, grains; C API properties/temperature/composition; C++ wrapper), with and without forced "
+                          "surface temperature, depth 0 included; refusal of all 17 2D entry points without a cross section at depths {0, 50 km}, forced "
+                          "and unforced. non-trivial = (2D,3D) query pairs")
     c.assumptions += ["blocks compared with rel/abs 1e-9 (the code's own mapping rounds differently from the exact rational one); probes >= 1 km from straight feature boundaries",
                       "spherical velocity projection not asserted (statement: Cartesian)"]
     return c.finish()
